@@ -1,6 +1,7 @@
 package main
 
 import (
+	"context"
 	"bytes"
 	"errors"
 	"fmt"
@@ -18,6 +19,7 @@ import (
 	"github.com/failsafe-go/failsafe-go/circuitbreaker"
 	"github.com/failsafe-go/failsafe-go/failsafehttp"
 	"github.com/failsafe-go/failsafe-go/hedgepolicy"
+	"github.com/failsafe-go/failsafe-go/ratelimiter"
 	"github.com/failsafe-go/failsafe-go/retrypolicy"
 	"github.com/failsafe-go/failsafe-go/timeout"
 )
@@ -46,6 +48,8 @@ func init() {
 			return witnessD13()
 		case "d14":
 			return witnessD14()
+		case "d15":
+			return witnessD15()
 		}
 		return 2
 	}
@@ -235,6 +239,38 @@ func witnessD14() int {
 	})
 	grew += measure("sync, no policy (control)", func() { failsafe.NewExecutor[int]().WithContext(parent).Get(func() (int, error) { return 1, nil }) })
 	if grew > 10 {
+		fmt.Println("WITNESS-FAILS")
+	}
+	return 0
+}
+
+// D15 probe: Retry(RateLimiter with a max wait). Attempt 1 is rejected (the wait would exceed the max wait: ErrExceeded, one
+// OnRateLimitExceeded event, recorded as the execution's last error). Attempt 2 is admitted to wait; the caller's context is
+// cancelled during that wait. The wait returns exec.LastError() - the stale ErrExceeded of attempt 1 - and the executor
+// fires OnRateLimitExceeded a second time although nothing was rejected.
+func witnessD15() int {
+	spurious := 0
+	rounds := 10
+	for i := 0; i < rounds; i++ {
+		var events atomic.Int32
+		rl := ratelimiter.SmoothBuilderWithMaxRate[int](100 * time.Millisecond).WithMaxWaitTime(70 * time.Millisecond).
+			OnRateLimitExceeded(func(failsafe.ExecutionEvent[int]) { events.Add(1) }).Build()
+		rl.TryAcquirePermit() // the first slot is gone: the next one is 100 ms away
+		rp := retrypolicy.Builder[int]().WithMaxRetries(3).WithDelay(50 * time.Millisecond).Build()
+		ctx, cancel := context.WithCancel(context.Background())
+		go func() { time.Sleep(75 * time.Millisecond); cancel() }() // during attempt 2's wait (50 ms .. 100 ms)
+		invoked := 0
+		_, err := failsafe.NewExecutor[int](rp, rl).WithContext(ctx).Get(func() (int, error) { invoked++; return 1, nil })
+		cancel()
+		if events.Load() != 1 {
+			spurious++
+			if spurious == 1 {
+				fmt.Printf("witness d15: one rejection happened, OnRateLimitExceeded fired %d times (err=%v, invocations=%d)\n", events.Load(), err, invoked)
+			}
+		}
+	}
+	fmt.Printf("witness d15: %d of %d executions saw an OnRateLimitExceeded event for a wait that was cancelled, not refused\n", spurious, rounds)
+	if spurious > 0 {
 		fmt.Println("WITNESS-FAILS")
 	}
 	return 0
